@@ -599,3 +599,18 @@ def _tree_root(it, st, args, ctx):
         ROOT[key] = r
         it.roots.append((r, tm)) if hasattr(it, 'roots') else None
     return r
+
+
+@summary(r'^(novasmt::)?Database::<.*>::get_tree$')
+def _db_get_tree(it, st, args, ctx):
+    """content-addressed store: the tree whose root hash is the argument (only roots this run has seen)"""
+    root = args[1]
+    while isinstance(root, Ptr):
+        root = it.load(st, root)
+    if isinstance(root, Agg) and root.ty == 'HashVal':
+        root = root.fields[0]
+    for (r, tm) in getattr(it, 'roots', []):
+        if r.eq(root):
+            st.events.append(('get_tree', r))
+            return mk_some(Opaque('Tree', tm))
+    raise Unsupported('Database::get_tree of a root no tree of this run hashes to: %s' % root.sexpr()[:80])
